@@ -184,6 +184,9 @@ func (cat *Catalog) BuildKnowledgeBase() (*KnowledgeBase, error) {
 					return nil, err
 				}
 				dLen := binary.LittleEndian.Uint64(length)
+				if dLen > uint64(buffer.Len()) {
+					return nil, fmt.Errorf("string constant %s claims %d bytes, only %d are stored", amet.AstID, dLen, buffer.Len())
+				}
 				byteArr := make([]byte, dLen)
 				_, err = buffer.Read(byteArr)
 				if err != nil {
@@ -766,14 +769,14 @@ func (cat *Catalog) ReadCatalogFromReader(reader io.Reader) error {
 
 			return err
 		}
-		content := make([]string, incount)
+		content := make([]string, 0, preallocHint(incount))
 		for subIndex := uint64(0); subIndex < incount; subIndex++ {
 			str, err := ReadStringFromReader(reader)
 			if err != nil {
 
 				return err
 			}
-			content[subIndex] = str
+			content = append(content, str)
 		}
 		cat.MemoryExpressionVariableMap[key] = content
 	}
@@ -797,14 +800,14 @@ func (cat *Catalog) ReadCatalogFromReader(reader io.Reader) error {
 
 			return err
 		}
-		content := make([]string, incount)
+		content := make([]string, 0, preallocHint(incount))
 		for subIndex := uint64(0); subIndex < incount; subIndex++ {
 			str, err := ReadStringFromReader(reader)
 			if err != nil {
 
 				return err
 			}
-			content[subIndex] = str
+			content = append(content, str)
 		}
 		cat.MemoryExpressionAtomVariableMap[key] = content
 	}
@@ -1210,14 +1213,14 @@ func (meta *ArgumentListMeta) ReadMetaFrom(reader io.Reader) error {
 		return err
 	}
 
-	meta.ArgumentASTIDs = make([]string, integer)
+	meta.ArgumentASTIDs = make([]string, 0, preallocHint(integer))
 	for index := uint64(0); index < integer; index++ {
 		s, err := ReadStringFromReader(reader)
 		if err != nil {
 
 			return err
 		}
-		meta.ArgumentASTIDs[index] = s
+		meta.ArgumentASTIDs = append(meta.ArgumentASTIDs, s)
 	}
 
 	return nil
@@ -1562,13 +1565,12 @@ func (meta *ConstantMeta) ReadMetaFrom(reader io.Reader) error {
 
 		return err
 	}
-	byteArr := make([]byte, length)
-	readCount, err := io.ReadFull(reader, byteArr)
+	byteArr, readCount, err := readExactly(reader, length)
 	if err != nil {
 
 		return err
 	}
-	if uint64(readCount) != length {
+	if readCount != length {
 
 		return io.ErrShortBuffer
 	}
@@ -2290,14 +2292,14 @@ func (meta *ThenExpressionListMeta) ReadMetaFrom(reader io.Reader) error {
 		return err
 	}
 
-	meta.ThenExpressionIDs = make([]string, count)
+	meta.ThenExpressionIDs = make([]string, 0, preallocHint(count))
 	for index := uint64(0); index < count; index++ {
 		s, err := ReadStringFromReader(reader)
 		if err != nil {
 
 			return err
 		}
-		meta.ThenExpressionIDs[index] = s
+		meta.ThenExpressionIDs = append(meta.ThenExpressionIDs, s)
 	}
 
 	return nil
@@ -2596,9 +2598,8 @@ func ReadStringFromReader(reader io.Reader) (string, error) {
 		return "", err
 	}
 	strLen := binary.LittleEndian.Uint64(length)
-	strByte := make([]byte, int(strLen))
-	counter, err = io.ReadFull(reader, strByte)
-	TotalRead += uint64(counter)
+	strByte, read, err := readExactly(reader, strLen)
+	TotalRead += read
 	if err != nil {
 
 		return "", err
@@ -2606,6 +2607,43 @@ func ReadStringFromReader(reader io.Reader) (string, error) {
 	ReadCount++
 
 	return string(strByte), nil
+}
+
+// maxPrealloc is the most that is allocated up front on the word of a length or count field read
+// from a stream. A damaged field must end in an error when the stream runs out, not in a
+// multi-gigabyte allocation.
+const maxPrealloc = 1 << 16
+
+// preallocHint returns the capacity to reserve for a list announced to hold count elements.
+func preallocHint(count uint64) int {
+	if count > maxPrealloc {
+
+		return maxPrealloc
+	}
+
+	return int(count)
+}
+
+// readExactly reads length bytes from reader. Up to maxPrealloc bytes are read into a buffer of
+// exactly that size; beyond that the buffer grows as the bytes actually arrive.
+func readExactly(reader io.Reader, length uint64) ([]byte, uint64, error) {
+	if length <= maxPrealloc {
+		data := make([]byte, length)
+		n, err := io.ReadFull(reader, data)
+
+		return data, uint64(n), err
+	}
+	if length > math.MaxInt64 {
+
+		return nil, 0, fmt.Errorf("invalid length %d in stream", length)
+	}
+	var buffer bytes.Buffer
+	n, err := io.CopyN(&buffer, reader, int64(length))
+	if err == io.EOF {
+		err = io.ErrUnexpectedEOF
+	}
+
+	return buffer.Bytes(), uint64(n), err
 }
 
 // WriteIntToWriter write a 64 bit integer into writer.
